@@ -55,10 +55,10 @@ class KDRandomResizedCrop(KDStochasticTransform):
         in_ratio = float(width) / float(height)
         if in_ratio < min(self.ratio):
             w = width
-            h = int(round(w / min(self.ratio)))
+            h = max(1, int(round(w / min(self.ratio))))
         elif in_ratio > max(self.ratio):
             h = height
-            w = int(round(h * max(self.ratio)))
+            w = max(1, int(round(h * max(self.ratio))))
         else:
             # whole image
             w = width
